@@ -269,6 +269,17 @@ def fs_open(path, mode="r", gz=False):
         w = SWriter(fs, e, gz)
         w._commit(complete=False)
         return w
+    if mode == "ab" and not gz:
+        # append: the file is created when absent, earlier content stays and every write goes to the end
+        if c.interp.truth(e.exists):
+            old = e.content if e.content is not None else fs.initial_content(e)
+            if isinstance(old, GzBytes):
+                raise Unsupported("append to a gzip stream")
+        else:
+            old = None
+        w = SWriter(fs, e, False, append_to=old)
+        w._commit(complete=False)
+        return w
     raise Unsupported(f"open mode {mode!r}")
 
 
